@@ -489,8 +489,9 @@ PROP.LEVEL_TEXT = (
     "Coroutine-level transition system of DefaultDeploymentManager (_deploy/_inner_deploy/deploy/undeploy/undeploy_all) "
     "and FutureConnector in Coq (Deploy/Model.v); an execution is a list of scheduling choices. UNBOUNDED, by inductive "
     "invariants over all executions (any number of requests/operations/suspensions, every list of scheduling choices): "
-    "return_after and once for deploy-only request sets, and once for deploy+undeploy request sets, on one eager, "
-    "non-wrapper, never-failing deployment (C26_*_deploy_only_partial, C26_once_deploy_undeploy_partial). BOUNDED: every "
+    "return_after and once for deploy-only AND for deploy+undeploy request sets on one eager, non-wrapper, never-failing "
+    "deployment (C26_*_deploy_only_partial, C26_once_deploy_undeploy_partial, C26_return_after_deploy_undeploy_partial). "
+    "BOUNDED: every "
     "multiset of <=4 deploy/undeploy requests on one eager deployment (return_after, once) and 651 sequential-teardown "
     "request sets on an eager chain of depth 4 (wrap_order, once, return_after), every interleaving, by a verified "
     "exhaustive explorer. Otherwise PARTIAL: the clauses are "
